@@ -178,6 +178,21 @@ class World:
             else:
                 rec["res"] = res
             rec["model_exists"] = inc is not None
+        elif kind == "copy":          # ("copy", h, how): the program duplicates / serialises a handle it holds
+            import copy as _copy
+            import pickle as _pickle
+            h = self.handles[op[1]]
+            how = op[2]
+            fn = {"copy": lambda: _copy.copy(h.obj), "deepcopy": lambda: _copy.deepcopy(h.obj),
+                  "pickle": lambda: _pickle.loads(_pickle.dumps(h.obj))}[how]
+            res = self._call(fn)
+            if res[0] == "ok" and isinstance(res[1], ps.Process):
+                # whatever way it came about, the duplicate stands for the process the original stands for
+                self.handles.append(Handle(res[1], h.pid, h.inc, h.created_at))
+                rec["handle"] = len(self.handles) - 1
+                rec["res"] = ("ok", None)
+            else:
+                rec["res"] = res         # refusing to be copied (TypeError) is an answer too
         elif kind == "newp":
             # a psutil.Popen object for a child whose pid is `pid` (the subprocess.Popen underneath is a stand-in that is
             # never waited for, so its returncode stays None - as when the child is reaped behind Popen's back)
